@@ -608,20 +608,28 @@ def build_variant(ctx, var, jobs):
         raise vlib.BuildError("library build failed for %s:\n%s" % (desc, out[-2500:]))
     return tree, vlib.get_harness(tree, "plain", "-no-pie" if cfg and "--enable-fat" in cfg else "")     # fat_entry.o uses absolute relocations
 
-def other_value_lines(ctx, tree, harness, cap=15000):
-    """value-level op lines of the other properties' generators (quick tier), generated against the rebuilt tree"""
+def other_value_lines(ctx, tree, harness, cap=40000):
+    """value-level op lines of the other properties' generators (quick tier), generated against the rebuilt tree: an evenly
+    spaced sample of every generator's stream (not its first lines: generators emit one operation family after the other)"""
     class C: pass
     c2 = C(); c2.__dict__.update(ctx.__dict__); c2.build = tree; c2.harness = harness
-    pdir = os.path.dirname(os.path.abspath(__file__)); out = []; have = harness_op_names()
-    for f in sorted(glob.glob(os.path.join(pdir, "c*.py"))):
+    pdir = os.path.dirname(os.path.abspath(__file__)); have = harness_op_names()
+    files = [f for f in sorted(glob.glob(os.path.join(pdir, "c*.py"))) if not os.path.basename(f).startswith("c14") and "def gen_ops" in open(f).read()]
+    per = max(200, cap // max(1, len(files))); out = []
+    for f in files:
         name = os.path.basename(f)[:-3]
-        if name.startswith("c14") or "def gen_ops" not in open(f).read(): continue
         try:
-            m = importlib.import_module("props." + name); tg = time.time(); n = 0
+            m = importlib.import_module("props." + name); tg = time.time(); got = []
             for ln in m.gen_ops(random.Random("C14-%s-%d" % (name, ctx.seed)), "quick", c2):
                 op = ln.split(" ", 1)[0]
-                if VALUE_RE.match(op) and op in have: out.append(ln); n += 1
-                if n >= cap // 4 or time.time() - tg > 60: break
+                if VALUE_RE.match(op) and op in have and len(ln) < 200000: got.append(ln)
+                if len(got) >= 60000 or time.time() - tg > 45: break
+            byop = collections.defaultdict(list)
+            for ln in got: byop[ln.split(" ", 1)[0]].append(ln)
+            share = max(8, per // max(1, len(byop)))
+            for op in sorted(byop):
+                v = byop[op]; step = max(1, len(v) // share)
+                out += v[::step][:share]
         except Exception as e:
             log("generator props.%s skipped in rebuild stage: %s" % (name, str(e)[:200]))
     return out[:cap]
